@@ -1,6 +1,6 @@
 """C06 — serial and parallel traversal report the same entries."""
 from .. import cfg as C
-from ..flow import ExprBuilder, mentions_field, mentions_call, is_call, walk, show, seed_after_call, I, V, Sccp, cond_switches, guarded
+from ..flow import ExprBuilder, mentions_field, mentions_call, is_call, walk, show, seed_after_call, I, V, Sccp, cond_switches, guarded, is_field, strip
 from ..graph import field_rw, field_rw_deep, CallGraph
 from ..facts import op_place, op_const
 
@@ -100,6 +100,39 @@ def root_switch(f):
                     return bb, bs[1], bs[2]
     return None
 
+
+
+def follow_first_rule(ctx, r):
+    """Shared by C06.HELPERS and C08.WALK."""
+    from .. import cfg as C
+    facts = ctx.facts
+    gwf = facts.fn(W + "::Worker::generate_work")
+    ebw = ExprBuilder(gwf)
+    fp = gwf.calls_to(W + "::DirEntryRaw::from_path")
+    fl_sw = cond_switches(gwf, lambda e: any(x.k == "field" and x[3] == "follow_links" for x in walk(e)), ebw)
+    # ... and every decision about the entry is taken on the followed entry, as the serial walker's are (walkdir has
+    # followed the link before Walk::next sees it): ignore rules / type filter / size limit / caller's filter of a
+    # symlink to a directory are those of a directory
+    sym = cond_switches(gwf, lambda e: any(is_call(x, "std::fs::FileType::is_symlink", "core::result::Result::map_or") or
+                                           (x.k == "closure") for x in walk(e)) and
+                        not any(x.k == "field" and x[3] == "follow_links" for x in walk(e)), ebw)
+    deciders = [c for c in gwf.calls() if c.path in (W + "::should_skip_entry", W + "::path_equals", W + "::skip_filesize",
+                                                      W + "::Worker::send") or
+                (c.path.startswith("core::ops::function::Fn") and any(x.k == "field" and x[3] == "filter" for x in walk(ebw.operand(c.args[0]))))]
+    if fp and fl_sw and sym and len(deciders) >= 4:
+        removed = {x[2] for x in fl_sw} | {x[2] for x in sym}
+        left = C.all_paths_pass(gwf, [0], [fp[0].bb], [c.bb for c in deciders], removed_edges=removed)
+        if left:
+            late = [c for c in deciders if c.bb in left]
+            r.bad("follow|first", "under follow_links the parallel walker calls %s on a symlink entry before it has been re-read "
+                  "through the link: the decision is taken for a non-directory, while the serial walker decides on the "
+                  "link's target" % late[0].path.split("::")[-1], fn=gwf, loc=late[0].loc, construct="follow_links")
+        else:
+            r.ok("follow|first", "follow_links ∧ symlink ⇒ re-read before %s" % ", ".join(sorted({c.path.split("::")[-1] for c in deciders})),
+                 fn=gwf)
+    else:
+        r.bad("follow|first", "anchor-missing: follow_links / is_symlink tests or the %d decision calls of generate_work" % len(deciders),
+              fn=gwf)
 
 def run(ctx):
     facts = ctx.facts
@@ -320,6 +353,7 @@ def run(ctx):
             r.bad("follow|restat", "under follow_links the parallel walker no longer re-reads a symlink entry through the link "
                   "(DirEntryRaw::from_path(.., true)): symlinked directories are not descended although the serial walker does",
                   fn=gwf, construct="follow_links")
+        follow_first_rule(ctx, r)
         sfs = ro.calls_to(W + "::is_same_file_system")
         if sfs and gw:
             s0 = seed_after_call(ro, sfs[0], V("Ok", I(0)))
@@ -329,6 +363,44 @@ def run(ctx):
                 r.ok("same_fs", "is_same_file_system == false ⇒ visited but not descended", fn=ro)
         else:
             r.bad("same_fs", "anchor-missing: device check in run_one", fn=ro)
+        # ... and the device a root's subtree is pinned to is that root's own: looked up in the very loop iteration that hands
+        # the root out (walkdir does the same per WalkDir). A device carried over from an earlier root prunes (or follows)
+        # the wrong directories as soon as two roots lie on different file systems.
+        cands = [f_ for f_ in facts.fns_in(W + "::WalkParallel::") if f_.calls_to(W + "::device_num") and
+                 any(st["k"] == "assign" and st["rv"]["k"] == "agg" and st["rv"].get("adt") == W + "::Work" for _, _, st in f_.stmts())]
+        if not cands:
+            r.bad("same_fs|root-device", "anchor-missing: no WalkParallel function builds a root's Work from device_num", fn=facts.fn(W + "::WalkParallel::visit"))
+        for vis in cands[:1]:
+            ebv = ExprBuilder(vis)
+            nxt = [c for c in vis.calls() if c.path == "core::iter::traits::iterator::Iterator::next" and
+                   "vec::into_iter::IntoIter" in (c.func.get("resolved") or "")]
+            dn = vis.calls_to(W + "::device_num")
+            works = [bb for bb, j_, st in vis.stmts() if st["k"] == "assign" and st["rv"]["k"] == "agg" and st["rv"].get("adt") == W + "::Work"]
+            sfsw = cond_switches(vis, lambda e: is_field(strip(e), W + "::WalkParallel", "same_file_system"), ebv)
+            if not sfsw:
+                r.bad("same_fs|root-device", "anchor-missing: no test of same_file_system where the roots' Work is built", fn=vis)
+                continue
+            removed = {x[2] for x in sfsw}
+            # stdin has no device
+            removed |= {x[1] for x in cond_switches(vis, lambda e: is_call(e, "core::cmp::PartialEq::eq") and
+                                                   any(y.k == "const" and y[2] and '"-"' in str(y[2]) for y in walk(e)), ebv)}
+            if nxt:
+                # the loop over the roots is here: the root is what `next` just produced
+                start = nxt[0].target
+                own = [c for c in dn if C.dominates(vis, nxt[0].bb, c.bb) and
+                       any(is_call(y, "core::iter::traits::iterator::Iterator::next") for y in walk(ebv.operand(c.args[0])))]
+            else:
+                # a per-root helper: the root is a parameter
+                start = 0
+                own = [c for c in dn if any(y.k == "arg" for y in walk(ebv.operand(c.args[0])))]
+            left = C.all_paths_pass(vis, [start], [c.bb for c in own], works, removed_edges=removed)
+            if own and not left:
+                r.ok("same_fs|root-device", "same_file_system ⇒ each root's Work carries device_num(that root), looked up in its own iteration",
+                     fn=vis)
+            else:
+                r.bad("same_fs|root-device", "%s can hand out a root under same_file_system without looking up that root's "
+                      "own device: its subtree is pinned to the device of another root (the serial walker pins each root to its own)"
+                      % vis.path.split("::")[-1], fn=vis, loc=dn[0].loc, construct="root_device")
         ih = facts.fn("ignore::pathutil::is_hidden")
         ebi = ExprBuilder(ih)
         e_ = ebi.local(0)
